@@ -10,9 +10,9 @@ import (
 )
 
 func init() {
-	registerRule("lockset", 4, "every access to lock-protected state happens with the right lock held on every path, and every exit releases it", ruleLockset)
+	registerRule("lockset", 7, "every access to lock-protected state happens with the right lock held on every path, and every exit releases it", ruleLockset)
 	registerRule("no-call-under-lock", 3, "no call is made while a cache lock is held; sync.Once is used only through Do", ruleNoCallUnderLock)
-	registerRule("globals", 10, "who-may-write inventory of every package-level variable", ruleGlobals)
+	registerRule("globals", 13, "who-may-write inventory of every package-level variable", ruleGlobals)
 	registerRule("ctx-private", 5, "resolver contexts and loaders are created per call and never escape into shared storage", ruleCtxPrivate)
 	registerRule("no-goroutines", 1, "the package starts no goroutine: all concurrency is the caller's", ruleNoGoroutines)
 }
